@@ -62,6 +62,61 @@ def observe(code, t, r, s):
             "labels": get(lambda: s.labels, ints)}
 
 
+def queries(dim, coords):
+    """index_of in the three modes and range_indices in both, at / between / outside the given sample coordinates"""
+    from nixio.dimensions import IndexMode, SliceMode
+    n = len(coords)
+    if n:
+        pts = sorted(set([coords[0] - 1.0, coords[-1] + 2.2] + [float(c) for c in coords] +
+                         [(coords[j] + coords[j + 1]) / 2.0 for j in range(n - 1)]))
+    else:
+        pts = [-1.0, 0.0, 0.5, 2.0]
+    out = []
+    for p in pts:
+        for m in (IndexMode.LessOrEqual, IndexMode.Less, IndexMode.GreaterOrEqual):
+            try:
+                out.append(int(dim.index_of(p, m)))
+            except Exception as exc:
+                out.append("raise:" + ("IndexError" if isinstance(exc, IndexError) else type(exc).__name__))
+    for a, z in zip(pts, pts[1:] + pts[:1]):
+        for m in (SliceMode.Exclusive, SliceMode.Inclusive):
+            try:
+                r = dim.range_indices(a, z, m)
+                out.append(None if r is None else [int(x) for x in r])
+            except Exception as exc:
+                out.append("raise:" + ("IndexError" if isinstance(exc, IndexError) else type(exc).__name__))
+    return out
+
+
+def twin_check(r, s, ref):
+    """a LINKED dimension converts positions exactly like a dimension that holds the same ticks / labels itself
+    (ref: a range and a set dimension of a scratch array, given those values here); returns a description or None"""
+    rr, rs = ref
+
+    def values(fn):
+        try:
+            return list(fn())          # a link to a vector that does not exist reads with an error (observed elsewhere)
+        except Exception:
+            return None
+    try:
+        if r.has_link:
+            ticks = values(lambda: [float(x) for x in r.ticks]) or []
+            if len(ticks) and all(a < b for a, b in zip(ticks, ticks[1:])):
+                rr.ticks = ticks
+                if queries(r, ticks) != queries(rr, ticks):
+                    return "range"
+        if s.has_link:
+            labels = values(lambda: [str(x) for x in s.labels]) or []
+            if labels:
+                rs.labels = labels
+                coords = [float(j) for j in range(len(labels))]
+                if queries(s, coords) != queries(rs, coords):
+                    return "set"
+    except Exception as exc:
+        return "raise:" + type(exc).__name__
+    return None
+
+
 def main():
     req = json.load(sys.stdin)
     wd = os.getcwd()
@@ -84,6 +139,8 @@ def main():
             kw["label"] = ini["r_label"]
         r = h.append_range_dimension([float(x) for x in ini["r_ticks"]] if ini["r_ticks"] is not None else None, **kw)
         s = h.append_set_dimension([str(x) for x in ini["s_labels"]] if ini["s_labels"] is not None else None)
+        scratch = b.create_data_array("scratch", "t", data=np.zeros((2, 2)))
+        ref = (scratch.append_range_dimension([0.0, 1.0]), scratch.append_set_dimension(["a", "b"]))
         obs = []
         # two Python objects of every participant: the calls alternate between them, the observation is made through the
         # objects that did NOT make the call, and the reads through both must agree
@@ -147,11 +204,14 @@ def main():
                     T = [b.data_arrays["target"], b.data_arrays["target"]]
                     R = [H[0].dimensions[0], H[1].dimensions[0]]
                     S = [H[0].dimensions[1], H[1].dimensions[1]]
+                    scratch = b.data_arrays["scratch"]
+                    ref = (scratch.dimensions[0], scratch.dimensions[1])
             except Exception as exc:
                 code = classify(exc)
             ob = observe(code, T[1 - w], R[1 - w], S[1 - w])
             ob2 = observe(code, T[w], R[w], S[w])
             ob["objects_agree"] = (ob == ob2)
+            ob["twin"] = twin_check(R[1 - w], S[1 - w], ref)
             obs.append(ob)
         out.append(obs)
     f.close()
